@@ -13,6 +13,8 @@ CONSTANTS
   FixNick = TRUE
   FixQC = TRUE
   FixConnect = TRUE
+  FixStale = TRUE
+  MaxReplug = 1
 INVARIANT NoRaise
 INVARIANT ConnectTrueOnlyIfSupported
 INVARIANT ConnectFalseRecords
